@@ -3,6 +3,34 @@ package main
 // Per-property driver configuration. rule/assumptions go verbatim into the
 // evidence file; the counts next to them are measured by the test processes.
 var props = map[string]propCfg{
+	"C12": {
+		rule: "fmt: one float64 bit pattern (structured: uniform bits, every exponent x boundary mantissas, powers of two and ten +-2 ulp, subnormals of every bit length, 2^53 neighbourhood, short decimals, exact dyadic ties odd/2^(f+1), nearest doubles to (k+1/2)*10^-f, 99..9 carry patterns, doubles adjacent to a midpoint that is a short decimal such as 1e23) x 4-5 requests out of String/concat/template/property key/JSON.stringify, round trips through every printer, toFixed/toExponential/toPrecision with digits 0..100 (and out-of-range / non-integer spellings), toString(radix 2..36 and invalid); s2n: one numeric text (decimal strings up to 800 digits on / one unit above / one unit below the midpoint of two adjacent doubles, short decimals D*10^e that are exact ties, random long and short decimals, renderings of doubles, 0x/0o/0b and legacy octal up to 300 digits, digits in radix 2..36) presented to Number(s), +s, s*1, parseFloat(s+junk), parseInt(s+junk, radix), the source literal and JSON.parse; a case is non-trivial when x is not an integer below 2^53 with <=15 digits or a request discards a non-zero tail (fmt), or the text has more than 17 significant decimal digits / more than 53 significant bits (s2n); distinct = FNV-64 of bits+requests or of the text+junk+radix",
+		assumptions: []string{
+			"math/big integer arithmetic and big.Rat.Float64 (round to nearest even) are correct; strconv.FormatFloat/ParseFloat and big.Float are used only as a second reference and a disagreement between the references is reported as a harness error, not a violation",
+			"String(x) must be the minimal-length digit string that rounds back to x AND the one closest to x (Note 2 of Number::toString); toFixed/toExponential/toPrecision round half up in magnitude from the exact binary value (the specification's 'pick the larger n')",
+			"Number(s), literals, parseFloat, JSON numbers must give the double nearest to the exact decimal value for any length (the property's reading; ECMA-262's RoundMVResult licence to truncate after 20 significant digits is accepted only for parseInt radix 10, as the property states); parseInt in radices other than 2,4,8,10,16,32 with more than 53 bits may be off by one ulp",
+			"toString(radix) for non-integers / integers above 2^53 is only required to have the form [-]digits[.digits] and to parse back exactly to x (digits themselves are implementation-approximated in ECMA-262)",
+			"whether the parser accepts NonOctalDecimalIntegerLiteral (08, 09) is excluded: goja rejects the syntax, which is not a conversion question",
+		},
+	},
+	"C14": {
+		rule: "call chains of depth 1..8 whose frames are drawn from 21 script frame kinds (function, arrow, method, getter, setter, class constructor, field initialiser, generator step before/after a yield, yield* delegate, Proxy get/apply trap, toString/valueOf/Symbol.toPrimitive/Symbol.hasInstance coercion, built-in callback (sort, map, replace, JSON reviver, ...), iterator next, async function before/after an await, promise reaction job) and 7 native kinds (func(FunctionCall), reflect-wrapped func with/without error result, func(ConstructorCall), DynamicObject.Get, Go Proxy get/apply trap), reached by script expressions or by the Go APIs RunString (nested), Callable, ExportTo'd func with/without error result, Object.Get/Set, AssertConstructor, Runtime.New, Object.String/ToNumber/ToFloat/ToInteger, Runtime.ForOf, Runtime.InstanceOf, optionally inside Runtime.Try / a ForOf step; the innermost frame raises one of 48 payloads (script throws of primitives, objects, Error subclasses, pre-built errors, GoErrors, Proxies, engine-raised errors, call-depth overflow; Go panics with Value / *Object / *Exception / GoError, returned errors incl. wrapped, joined, custom, nil, typed nil, a returned *Exception, foreign Go panics, Interrupt); script frames wrap the call in try/catch (rethrow / replace / swallow) and/or finally; the expectation (what every catch block sees, what the host gets: type, value identity, errors.Is/As/Unwrap, GoError.value, Stack()[0], promise state) is computed from the chain alone; non-trivial = at least 2 alternations between script and native frames and at least one script frame with try on the path; distinct = FNV-64 of the case JSON",
+		assumptions: []string{
+			"object identity is Go pointer equality of *goja.Object (plus e === <global> evaluated by the script itself); primitives are compared with StrictEquals and export type",
+			"Stack()[0] is asserted only for values thrown by a script throw statement (or raised by the engine) where creation site and throw site coincide, or rethrown non-Error values; FuncName is asserted only for functions with an explicit name",
+			"for a foreign Go panic only its arrival at the host's recover with the same value is asserted; after a typed-nil error only absence of a Go panic",
+		},
+	},
+	"C17": {
+		rule: "stateful model-based histories (<=25 operations) over 1-3 Go-supplied ArrayBuffers of 0..64 bytes that live inside canary-filled 4 KiB slabs, judged after every step against a byte-array model written from ECMA-262 (result or thrown constructor, callback log, every byte of every buffer, all canary bytes, aliasing of Go handles and exported slices); a history is non-trivial when it contains at least one bulk operation (fill/copyWithin/set/slice/subarray/sort/reverse/with/toSorted/toReversed/map/filter/of/from/setFromHex) on a view that does not cover its whole buffer, or at least one re-entrant effect (valueOf / callback / species constructor / comparator that detaches a buffer or writes into it), or an out-of-range DataView access; distinct = FNV-64 of the rendered script of the history",
+		assumptions: []string{
+			"the reference model (harness/c17/model.go, ops.go) is a faithful transcription of ECMA-262 for fixed-length ArrayBuffers; numref conversions and math/big are correct",
+			"NaN encodings written through Number values are implementation-chosen: the model accepts any NaN bit pattern and adopts the engine's; a history in which such bytes are re-read inside the same operation is dropped (counted as excluded)",
+			"the number and order of comparator calls in sort is implementation-defined: comparator effects fire on the first call only and the callback log of sort/toSorted is not compared",
+			"a write outside a buffer is detected only if it lands inside the 4 KiB slab around that buffer (2 KiB on either side)",
+			"the implementation-defined list separator of %TypedArray%.prototype.toLocaleString is \",\" (element toLocaleString methods are replaced by a logging stub, so no locale formatting is compared)",
+		},
+	},
 	"C20": {
 		rule: "diff: a generated pattern p (restricted to syntax with ECMAScript-defined meaning) and its engine-forcing neutral variant (p(?=), (?=)p, (?:p)(?!\\b\\B)) are run in a pristine runtime (fast path) and in a runtime de-optimised by forwarding wrappers / subclassing (generic path); a case is non-trivial when the hook VerifRegexpEngine shows the pair on two different engines, the pattern has >=1 capture group, the first exec matches, and the match is non-empty or a code unit >= 0x80 precedes it; syntax: a pattern/flags pair whose (in)validity is known by construction is non-trivial when it is invalid; distinct = FNV-64 of pattern, flags, subject, representation, lastIndex, variant, de-optimisation, constructor form and operation list",
 		assumptions: []string{
